@@ -216,7 +216,11 @@ def audit(module, theorems):
 
 def run_driver(exe, lines, timeout=3000):
     data = "\n".join(lines) + "\n"
-    p = subprocess.run([exe], input=data.encode(), stdout=subprocess.PIPE, stderr=subprocess.PIPE, timeout=timeout)
+    # malloc returns indeterminate bytes: the implementation runs with every fresh allocation filled with ones (ASan builds)
+    # or 0xaa (glibc builds), so that a field the library reads before writing it does not happen to be zero
+    env = dict(os.environ, MALLOC_PERTURB_="85")
+    env["ASAN_OPTIONS"] = (env.get("ASAN_OPTIONS", "") + ":malloc_fill_byte=255:max_malloc_fill_size=1048576").lstrip(":")
+    p = subprocess.run([exe], input=data.encode(), stdout=subprocess.PIPE, stderr=subprocess.PIPE, timeout=timeout, env=env)
     return p.returncode, p.stdout.decode("latin1").split("\n")[:-1] if p.stdout else [], p.stderr.decode("latin1", "replace")
 
 
